@@ -10,6 +10,13 @@ REAL implementation.
     M3     macro, inputs x: int, y: str, z  value-linked to a child C3 `c`
     MU     macro, untyped inputs            value-linked to a child C3 `c`
     MM     macro, untyped inputs            value-linked to a child M3 `m` (chain macro → child → grandchild)
+    CF     inputs x: float, y: list, z      outputs ox, oy, oz (no hints); returns its arguments
+
+Adversarial values (`make_pool`): objects whose duck-typed surface lies about them — look-alikes of a pint
+quantity, objects with `magnitude` / `units` / `value` / `__len__` / `__iter__` / `__index__` / `__float__` /
+`__int__` / `__bool__` that raise or return odd things, subclasses of int / str / float / list with overridden
+`__eq__` / `__hash__`, real pint quantities, numpy scalars and arrays, None, classes.  `tag` identifies a pool
+value without calling anything the value could override (the harness never compares values with `==`).
 
 The consumers log the arguments the wrapped function actually receives.  No input has a
 default, so a fresh input holds NOT_DATA.  Caching is off for the consumers (the cache is
@@ -73,3 +80,249 @@ def MU(self, x, y, z):
 def MM(self, x, y, z):
     self.m = M3(x=x, y=y, z=z)
     return self.m.outputs.ox, self.m.outputs.oy, self.m.outputs.oz
+
+
+@as_function_node("ox", "oy", "oz", validate_output_labels=False, use_cache=False)
+def CF(x: float, y: list, z):
+    CALLS.append((x, y, z))
+    return x, y, z
+
+
+# ----------------------------------------------------------------------------- adversarial values
+
+
+class IntEq(int):
+    """an int that claims to be equal to everything"""
+
+    def __eq__(self, other):
+        return True
+
+    def __ne__(self, other):
+        return False
+
+    def __hash__(self):
+        return 0
+
+
+class StrEq(str):
+    """a str that is equal to nothing (not even itself) and refuses to be hashed"""
+
+    def __eq__(self, other):
+        return False
+
+    def __ne__(self, other):
+        return True
+
+    def __hash__(self):
+        raise TypeError("unhashable liar")
+
+
+class FloatEq(float):
+    def __eq__(self, other):
+        return True
+
+    def __hash__(self):
+        return 0
+
+
+class ListEq(list):
+    def __eq__(self, other):
+        raise RuntimeError("no comparison")
+
+    __hash__ = None
+
+
+class IntNoBool(int):
+    """an int without truth value"""
+
+    def __bool__(self):
+        raise RuntimeError("no truth value")
+
+
+class FakeQ:
+    """looks like a pint quantity, is none"""
+
+    def __init__(self, magnitude, units="meter"):
+        self.magnitude = magnitude
+        self.units = units
+
+    @property
+    def m(self):
+        return self.magnitude
+
+    @property
+    def u(self):
+        return self.units
+
+
+class MagRaises:
+    @property
+    def magnitude(self):
+        raise RuntimeError("no magnitude for you")
+
+    @property
+    def units(self):
+        raise RuntimeError("no units for you")
+
+    @property
+    def value(self):
+        raise RuntimeError("no value for you")
+
+
+class LiarNum:
+    """claims to be a number and a container"""
+
+    value = 5
+
+    def __index__(self):
+        return 7
+
+    def __int__(self):
+        return 7
+
+    def __float__(self):
+        return 1.5
+
+    def __len__(self):
+        return 3
+
+    def __iter__(self):
+        return iter((1, 2, 3))
+
+    def __bool__(self):
+        raise RuntimeError("no truth value")
+
+
+class LenRaises:
+    def __len__(self):
+        raise RuntimeError("no length")
+
+    def __iter__(self):
+        raise RuntimeError("no iteration")
+
+    def __bool__(self):
+        return False
+
+
+class AnyAttr:
+    """has every attribute you ask for (magnitude, units, value, ...)"""
+
+    def __getattr__(self, name):
+        if name.startswith("__"):
+            raise AttributeError(name)
+        return 5
+
+
+_PLAIN = (MagRaises, LiarNum, LenRaises, AnyAttr)
+_UREG = None
+
+
+def _ureg():
+    global _UREG
+    if _UREG is None:
+        import pint
+
+        _UREG = pint.UnitRegistry()
+    return _UREG
+
+
+def _factories():
+    import numpy as np
+
+    from pyiron_workflow.channels import NotData
+
+    def q(mag):
+        return lambda: _ureg().Quantity(mag, "meter")
+
+    return {
+        200: lambda: None,
+        201: lambda: int,
+        202: lambda: NotData,
+        203: lambda: True,
+        204: lambda: 1.5,
+        205: lambda: float("nan"),
+        206: lambda: [1, 2],
+        210: lambda: IntEq(5),
+        211: lambda: StrEq("s9"),
+        212: lambda: FloatEq(2.5),
+        213: lambda: ListEq([1]),
+        214: lambda: IntNoBool(3),
+        220: lambda: FakeQ(3),
+        221: lambda: FakeQ(1.5),
+        222: lambda: FakeQ("s101"),
+        223: lambda: FakeQ([1, 2]),
+        224: lambda: MagRaises(),
+        225: lambda: LiarNum(),
+        226: lambda: LenRaises(),
+        227: lambda: AnyAttr(),
+        230: q(3),
+        231: q(1.5),
+        232: q(np.array([1.0, 2.0])),
+        240: lambda: np.float64(1.5),
+        241: lambda: np.int64(3),
+        242: lambda: np.array([1, 2]),
+        243: lambda: np.bool_(True),
+    }
+
+
+ADV_KEYS = (200, 201, 202, 203, 204, 205, 206, 210, 211, 212, 213, 214, 220, 221, 222, 223, 224, 225, 226, 227,
+            230, 231, 232, 240, 241, 242, 243)
+
+
+def make(k):
+    """a fresh pool object"""
+    return _factories()[k]()
+
+
+def tag(v):
+    """identify a pool value without calling anything the value can override"""
+    t = type(v)
+    if v is None:
+        return "None"
+    if t is bool:
+        return "bool:" + ("T" if v is True else "F")
+    if t is int:
+        return "int:" + int.__repr__(v)
+    if t is str:
+        return "str:" + str.__str__(v)
+    if t is float:
+        return "float:" + float.__repr__(v)
+    if t is list:
+        return "list:" + ",".join(tag(x) for x in list.__iter__(v))
+    if type.__instancecheck__(type, v):
+        return "cls:" + type.__getattribute__(v, "__module__") + "." + type.__getattribute__(v, "__qualname__")
+    if t in (IntEq, IntNoBool):
+        return t.__name__ + ":" + int.__repr__(v)
+    if t is StrEq:
+        return "StrEq:" + str.__str__(v)
+    if t is FloatEq:
+        return "FloatEq:" + float.__repr__(v)
+    if t is ListEq:
+        return "ListEq:" + ",".join(tag(x) for x in list.__iter__(v))
+    if t is FakeQ:
+        d = object.__getattribute__(v, "__dict__")
+        return "FakeQ:" + tag(d.get("magnitude")) + ":" + tag(d.get("units"))
+    if t in _PLAIN:
+        return t.__name__
+    mod = getattr(t, "__module__", "") or ""
+    if mod.startswith("pint"):
+        return "Q:" + tag(v.magnitude) + ":" + str(v.units)
+    if mod.startswith("numpy"):
+        import numpy as np
+
+        if isinstance(v, np.ndarray):
+            return "nd:" + str(v.dtype) + ":" + repr(v.tolist())
+        return "np:" + t.__name__ + ":" + repr(v.item())
+    return "?" + t.__name__
+
+
+_TAG2K = None
+
+
+def key_of(v):
+    """pool index of a value (by structure), or None"""
+    global _TAG2K
+    if _TAG2K is None:
+        _TAG2K = {tag(f()): k for k, f in _factories().items()}
+        assert len(_TAG2K) == len(ADV_KEYS), "pool tags are not distinct"
+    return _TAG2K.get(tag(v))
